@@ -52,6 +52,8 @@ def tree_hash(repo, extra):
             h.update(p.encode())
             with open(fp, "rb") as f:
                 h.update(f.read())
+    with open(os.path.abspath(__file__), "rb") as f:
+        h.update(f.read())
     h.update(repr(extra).encode())
     return h.hexdigest()[:20]
 
@@ -77,11 +79,14 @@ def build(cfg, repo="/repo", verbose=False):
     base = [cxx, "-std=c++17"] + flags + inc
     jobs = []
     objs = []
-    o = os.path.join(out, "harness.o"); objs.append(o)
-    jobs.append(base + ['-DHARNESS_UNITS="%s"' % units, "-c", os.path.join(VERIF, "harness", "harness.cpp"), "-o", o])
+    # Link order matters for one library object: Fp<...>::one is constant-initialised (.rodata) in a translation unit
+    # that sees the definition of its initialiser and dynamically initialised (.bss + guard) elsewhere; the wrappers
+    # come first, as bls12_381.o does in the library's own archive, so that the writable COMDAT copy is the one kept.
     for w in WRAPPERS:
         o = os.path.join(out, os.path.basename(w) + ".o"); objs.append(o)
         jobs.append(base + ["-c", os.path.join(repo, w), "-o", o])
+    o = os.path.join(out, "harness.o"); objs.append(o)
+    jobs.append(base + ['-DHARNESS_UNITS="%s"' % units, "-c", os.path.join(VERIF, "harness", "harness.cpp"), "-o", o])
     if use_asm:
         for s in ASM:
             o = os.path.join(out, os.path.basename(s) + ".o"); objs.append(o)
